@@ -20,11 +20,13 @@ pub struct Opts {
     pub fft_safe: bool,
     /// after the call, branch on every selected output value (lets memcheck see tainted outputs)
     pub fold: bool,
+    /// the scratch slice starts this many bytes past a 64-byte boundary (0 = aligned window)
+    pub misalign: usize,
 }
 
 impl Default for Opts {
     fn default() -> Self {
-        Opts { fill_seed: 1, scratch: ScratchMode::Generous, poison: false, fft_safe: true, fold: false }
+        Opts { fill_seed: 1, scratch: ScratchMode::Generous, poison: false, fft_safe: true, fold: false, misalign: 0 }
     }
 }
 
@@ -132,8 +134,8 @@ impl Ctx {
     fn scratch(&mut self, bytes: usize) -> ScratchWin {
         self.tmp_bytes = bytes;
         let mut sw = match self.opts.scratch {
-            ScratchMode::Generous => ScratchWin::new(bytes + 4096),
-            ScratchMode::Exact => ScratchWin::new(bytes),
+            ScratchMode::Generous => ScratchWin::new_misaligned(bytes + 4096, self.opts.misalign),
+            ScratchMode::Exact => ScratchWin::new_misaligned(bytes, self.opts.misalign),
             ScratchMode::ExactUninit => return ScratchWin::new_uninit(bytes),
         };
         sw.fill(&mut self.rf);
